@@ -483,3 +483,96 @@ def _dom(d):
     if d[0] == "real":
         return "R%s" % (list(d[1]) if d[1] else "")
     return "b%d%s" % (d[0], list(d[1]) if d[1] else "")
+
+
+# ---------------------------------------------------------------------------
+# capture-avoiding renaming on the IR (used to produce shadowing-free variants of generated programs)
+
+
+def rename_free(ir, m):
+    """rename free input names of `ir` according to the dict m (assumes the new names are fresh)"""
+    if not m:
+        return ir
+    k = ir[0]
+    if k == "ten":
+        return ("ten", ir[1], tuple(m.get(n, n) for n in ir[2]), ir[3])
+    if k == "var":
+        return ("var", m.get(ir[1], ir[1]), ir[2])
+    if k == "num":
+        return ir
+    if k == "slice":
+        return ("slice", m.get(ir[1], ir[1])) + tuple(ir[2:])
+    if k == "un":
+        return ("un", ir[1], ir[2], rename_free(ir[3], m))
+    if k == "bin":
+        return ("bin", ir[1], ir[2], rename_free(ir[3], m), rename_free(ir[4], m))
+    if k == "red":
+        bound = {n for n, d in ir[3]}
+        return ("red", ir[1], rename_free(ir[2], {a: b for a, b in m.items() if a not in bound}), ir[3])
+    if k == "sub":
+        keys = {n for n, v in ir[2]}
+        return ("sub", rename_free(ir[1], {a: b for a, b in m.items() if a not in keys}), tuple((n, rename_free(v, m)) for n, v in ir[2]))
+    if k == "stack":
+        return ("stack", m.get(ir[1], ir[1]), tuple(rename_free(p, m) for p in ir[2]))
+    if k == "cat":
+        inner = {a: b for a, b in m.items() if a != ir[3]}
+        return ("cat", m.get(ir[1], ir[1]), tuple(rename_free(p, inner) for p in ir[2]), ir[3])
+    if k == "lam":
+        return ("lam", ir[1], ir[2], rename_free(ir[3], {a: b for a, b in m.items() if a != ir[1]}))
+    if k == "fin":
+        return ("fin", ir[1], ir[2], tuple(rename_free(e, m) for e in ir[3]))
+    if k == "contr":
+        bound = {n for n, d in ir[3]}
+        inner = {a: b for a, b in m.items() if a not in bound}
+        return ("contr", ir[1], ir[2], ir[3], tuple(rename_free(t, inner) for t in ir[4]))
+    raise Unsupported("rename_free " + str(k))
+
+
+def uniquify_binders(ir, counter=None):
+    """alpha-rename every `red` binder to a globally unique name so that no name is bound twice or both bound and free"""
+    if counter is None:
+        counter = [0]
+    k = ir[0]
+    if k in ("ten", "var", "num", "slice"):
+        return ir
+    if k == "un":
+        return ("un", ir[1], ir[2], uniquify_binders(ir[3], counter))
+    if k == "bin":
+        return ("bin", ir[1], ir[2], uniquify_binders(ir[3], counter), uniquify_binders(ir[4], counter))
+    if k == "red":
+        body = uniquify_binders(ir[2], counter)
+        m = {}
+        vs = []
+        for n, d in ir[3]:
+            counter[0] += 1
+            new = "%s%dr" % (n.split("_")[0], counter[0])
+            m[n] = new
+            vs.append((new, d))
+        return ("red", ir[1], rename_free(body, m), tuple(sorted(vs)))
+    if k == "sub":
+        return ("sub", uniquify_binders(ir[1], counter), tuple((n, uniquify_binders(v, counter)) for n, v in ir[2]))
+    if k == "stack":
+        return ("stack", ir[1], tuple(uniquify_binders(p, counter) for p in ir[2]))
+    if k == "cat":
+        return ("cat", ir[1], tuple(uniquify_binders(p, counter) for p in ir[2]), ir[3])
+    if k == "fin":
+        return ("fin", ir[1], ir[2], tuple(uniquify_binders(e, counter) for e in ir[3]))
+    return ir
+
+
+def bound_names(ir, acc=None):
+    """list (with repetition) of names bound by red / lam / contr / integ nodes"""
+    if acc is None:
+        acc = []
+    if isinstance(ir, tuple) and ir and isinstance(ir[0], str) and ir[0] in KINDS:
+        if ir[0] in ("red", "contr", "integ"):
+            acc.extend(n for n, d in ir[3])
+        elif ir[0] == "lam":
+            acc.append(ir[1])
+        if ir[0] != "ten":
+            for c in ir[1:]:
+                bound_names(c, acc)
+    elif isinstance(ir, tuple):
+        for c in ir:
+            bound_names(c, acc)
+    return acc
